@@ -776,6 +776,98 @@ def adt_aliases(d):
     return out
 
 
+def _delegations(d, known):
+    """[(F, G)]: F is a function of the pinned tree whose whole body is `G(its own parameters, in
+    order)` - the result handed back as it is (or re-borrowed) - and G is a crate-private
+    function the pinned tree does not have, with the same parameter and result types."""
+    if not known:
+        return []
+    by_path = {}
+    for b in d["bodies"]:
+        by_path.setdefault(b["path"], []).append(b)
+    out = []
+    for b in d["bodies"]:
+        F = b["path"]
+        # (an impl of a trait is named by the trait and its type: it cannot be a fresh helper)
+        if not (F in known or b.get("impl_trait")) or b.get("def_kind") not in ("Fn", "AssocFn") or b.get("derived") or "body" not in b or "instance_of" in b:
+            continue
+        body = b["body"]
+        blocks = [x for x in body["blocks"] if not x.get("cleanup")]
+        if len(blocks) != 2 or len(body["blocks"]) != 2:
+            continue
+        b0, b1 = body["blocks"]
+        t0, t1 = b0["term"], b1["term"]
+        if t0.get("k") != "call" or t1.get("k") != "return" or t0.get("target") != 1:
+            continue
+        G = t0.get("resolved")
+        if not G or G != t0.get("callee") or not t0.get("resolved_local") or G in known or G == F or len(by_path.get(G, [])) != 1:
+            continue
+        g = by_path[G][0]
+        if g.get("def_kind") not in ("Fn", "AssocFn") or g.get("impl_trait") or g.get("derived") or "instance_of" in g or (g.get("pub") and g.get("reachable")) or g.get("generics") and b.get("generics") != g.get("generics"):
+            continue
+        tys = d["types"]
+        if [tys[i]["s"] for i in g.get("inputs", [])] != [tys[i]["s"] for i in b.get("inputs", [])] or tys[g["output"]]["s"] != tys[b["output"]]["s"]:
+            continue
+        n = body["arg_count"]
+        if len(t0["args"]) != n:
+            continue
+        # what each temporary of block 0 holds: a parameter itself or a re-borrow of its pointee
+        holds = {}
+        ok = True
+        for st in b0["stmts"]:
+            if st.get("k") != "assign" or st["place"]["p"]:
+                ok = False
+                break
+            rv = st["rv"]
+            if rv["k"] == "use" and rv["op"]["k"] in ("copy", "move") and not rv["op"]["place"]["p"]:
+                src = rv["op"]["place"]["l"]
+            elif rv["k"] == "ref" and rv["place"]["p"] == ["*"]:
+                src = rv["place"]["l"]
+            else:
+                ok = False
+                break
+            src = holds.get(src, src)
+            if not (1 <= src <= n):
+                ok = False
+                break
+            holds[st["place"]["l"]] = src
+        if not ok:
+            continue
+        got = []
+        for a in t0["args"]:
+            if a["k"] not in ("copy", "move") or a["place"]["p"]:
+                got = None
+                break
+            l = a["place"]["l"]
+            got.append(holds.get(l, l))
+        if got != list(range(1, n + 1)):
+            continue
+        # block 1: the result is returned as it is / re-borrowed
+        dest = t0["dest"]
+        if dest["p"]:
+            continue
+        res = {dest["l"]}
+        ok = True
+        for st in b1["stmts"]:
+            if st.get("k") != "assign" or st["place"]["p"]:
+                ok = False
+                break
+            rv = st["rv"]
+            if rv["k"] == "use" and rv["op"]["k"] in ("copy", "move") and not rv["op"]["place"]["p"] and rv["op"]["place"]["l"] in res:
+                res.add(st["place"]["l"])
+            elif rv["k"] == "ref" and rv["place"]["p"] == ["*"] and rv["place"]["l"] in res:
+                res.add(st["place"]["l"])
+            else:
+                ok = False
+                break
+        if not ok or 0 not in res:
+            continue
+        out.append((F, G))
+    # one known function per fresh one
+    gs = [g_ for _, g_ in out]
+    return [(f_, g_) for f_, g_ in out if gs.count(g_) == 1]
+
+
 class FactBase:
     def __init__(self, path, presentation=None):
         """presentation: how helpers that did not exist on the pinned tree are shown to the
@@ -830,6 +922,34 @@ class FactBase:
                 for tail in ('"', "::{", "::promoted", "::<"):
                     raw = raw.replace(json.dumps(new_p)[1:-1] + tail, json.dumps(old_p)[1:-1] + tail)
             self.d = json.loads(raw)
+        self.delegations = []
+        if self.presentation != "written":
+            # a function the rules know that now only hands its arguments to a fresh private
+            # function (`impl AsRef<str> { fn as_ref(&self) -> &str { self.as_str() } }` with the
+            # old body moved to `as_str`): the two swap names - the code is analysed under the
+            # known path, and the fresh name is the one that delegates (a helper like any other)
+            for F, G in _delegations(self.d, set((_ANCHORS or {}).get("functions", {}))):
+                jF, jG = json.dumps(F)[1:-1], json.dumps(G)[1:-1]
+                tmp = "\u0001swap\u0001"
+                for tail in ('"', "::{", "::promoted", "::<"):
+                    raw = raw.replace(jG + tail, tmp + tail)
+                for tail in ('"', "::{", "::promoted", "::<"):
+                    raw = raw.replace(jF + tail, jG + tail)
+                for tail in ('"', "::{", "::promoted", "::<"):
+                    raw = raw.replace(tmp + tail, jF + tail)
+                self.d = json.loads(raw)
+                # the items keep their own signatures' metadata (visibility, trait, attributes)
+                bf = [b for b in self.d["bodies"] if b["path"] == F]
+                bg = [b for b in self.d["bodies"] if b["path"] == G]
+                if len(bf) == 1 and len(bg) == 1:
+                    mf = {k: v for k, v in bf[0].items() if k not in ("path", "body")}
+                    mg = {k: v for k, v in bg[0].items() if k not in ("path", "body")}
+                    for b_, m_ in ((bf[0], mg), (bg[0], mf)):
+                        for k in [k for k in b_ if k not in ("path", "body")]:
+                            del b_[k]
+                        b_.update(m_)
+                    raw = json.dumps(self.d)
+                    self.delegations.append((F, G))
         self.path = path
         self.features = self.d["features"]
         self._types = self.d["types"]
